@@ -5,7 +5,7 @@
 // last line break) and whose 'near ...' excerpt can be produced.  A table definition with an invalid regular expression,
 // an empty JSON path, a wrong number of aggregate arguments or a number out of range is rejected with an error.
 // Grid: 16 valid statements (queries and table definitions, multi-line, non-ASCII text); every prefix of each; each with one
-// token deleted / duplicated / swapped with its neighbour; 3000 token soups and 1500 random Unicode strings from a fixed
+// token deleted / duplicated / swapped with its neighbour / replaced by one of 8 literals (0, 00, 1, -1, an empty text, NULL, 2^63, *); 3000 token soups and 1500 random Unicode strings from a fixed
 // generator; bracket nesting to depth 200; the listed invalid definitions.
 // Also: table definitions with several large bounded-repetition patterns.
 include!("verif_grid_common.rs");
@@ -79,6 +79,11 @@ fn verif_grid() {
             let (d1, d2) = (deleted.concat(), duplicated.concat());
             g.case(&format!("deleted-{}-{}", vi, i), move || total(&d1));
             g.case(&format!("duplicated-{}-{}", vi, i), move || total(&d2));
+            for (k, literal) in ["0", "00", "1", "-1", "''", "NULL", "9223372036854775808", "*"].iter().enumerate() {
+                let mut replaced = tokens.clone(); replaced[i] = literal.to_string();
+                let d4 = replaced.concat();
+                g.case(&format!("replaced-{}-{}-{}", vi, i, k), move || total(&d4));
+            }
             if let Some(j) = (i + 1..tokens.len()).find(|j| !tokens[*j].trim().is_empty()) {
                 let mut swapped = tokens.clone(); swapped.swap(i, j);
                 let d3 = swapped.concat();
